@@ -28,7 +28,7 @@ CONFLICT_CLASSES = ["same_line", "same_output", "same_meta_key", "del_vs_edit", 
 
 def plan(tier, seed):
     if tier == "quick":
-        return [{"triples": 70, "timeout": 900} for i in range(NSHARDS)]
+        return [{"triples": 200, "timeout": 900} for i in range(NSHARDS)]
     return [{"triples": 1000, "timeout": 3000} for i in range(NSHARDS)]
 
 
